@@ -261,6 +261,19 @@ KERNELS = [
          ext_fn={"self._find_fittest_operator": ("fittestFn", ["operators", "fitness"], ["Int", "Int"], "Int"),
                  "self._get_new_proba": ("newProbaFn", ["proba_dict", "operator", "threshold"], ["Int", "Int", "Int"], "Int"),
                  "self._choice_operators": ("choiceFn", ["proba_dict"], ["Int"], "Int")}),
+    # ---- PDPGA's offspring: as GA's, plus the remembered parent fitness (what `self._previous_fitness_i.append(...)` appends is returned
+    #      as a second row)
+    dict(name="PDPGA_get_new_individ_g", file="optimizers/_pdpga.py", cls="PDPGA", func="_get_new_individ_g",
+         params=[("specified_selection", "Opaque"), ("specified_crossover", "Opaque"), ("specified_mutation", "Opaque")], ret="Mat",
+         self_attrs={"_fitness_scale_i": ("fitness_scale", "Arr"), "_fitness_rank_i": ("fitness_rank", "Arr"), "_population_g_i": ("population", "Mat"),
+                     "_fitness_i": ("fitness_i", "Arr")},
+         opaque_unpack={"selection_func": None, "crossover_func": None, "mutation_func": None,
+                        "tour_size": "Int", "quantity": "Int", "proba": "Int", "is_constant_rate": "Bool"},
+         opaque_if={"is_constant_rate": ("proba", "proba_eff", "Int")}, self_append=["_previous_fitness_i"],
+         ext_fn={"selection_func": ("selFn", ["fitness", "rank", "tour_size", "quantity"], ["Arr", "Arr", "Int", "Int"]),
+                 "crossover_func": ("crossFn", ["individs", "fitness", "rank"], ["Mat", "Arr", "Arr"]),
+                 "mutation_func": ("mutFn", ["individual", "proba"], ["Arr", "Int"]),
+                 "self._choice_parent": ("parentFn", ["fitness_i_selected"], ["Arr"], "Int")}),
     dict(name="tournament_selection", file="utils/selections.py", func="tournament_selection",
          params=[("fitness", "Arr"), ("rank", "Arr"), ("tour_size", "Int"), ("quantity", "Int")], ret="Arr",
          ext_fn={"random_sample": ("sampler", ["range_size", "quantity", "replace"])}),
@@ -277,7 +290,7 @@ LTY = {"Int": "Int", "Arr": "List Int", "Bool": "Bool", "Mat": "List (List Int)"
        "ArrSelf": "List (List Int)"}
 TREE_ATTR = {"_nodes": "nodes", "_n_args": "nargs"}
 DEFAULT = {"Int": "0", "Arr": "[]", "Bool": "false", "Mat": "[]"}
-RESERVED = ("tourFn", "flipFn", "fittestFn", "newProbaFn", "choiceFn", "linspaceFn", "selFn", "mutFn", "donorFn", "crossFn", "repairFn", "_", "shuffler", "grower", "sampler", "wsampler", "end", "at", "from", "to", "in", "do", "then", "fun", "match", "with", "open", "by", "s", "us", "ns", "fuel", "rolls", "max", "min", "hi0", "samples", "self", "self_nodes", "self_nargs", "log", "stops", "kb", "value_ext", "tree")
+RESERVED = ("parentFn", "tourFn", "flipFn", "fittestFn", "newProbaFn", "choiceFn", "linspaceFn", "selFn", "mutFn", "donorFn", "crossFn", "repairFn", "_", "shuffler", "grower", "sampler", "wsampler", "end", "at", "from", "to", "in", "do", "then", "fun", "match", "with", "open", "by", "s", "us", "ns", "fuel", "rolls", "max", "min", "hi0", "samples", "self", "self_nodes", "self_nargs", "log", "stops", "kb", "value_ext", "tree")
 
 
 class NotRecognised(Exception):
@@ -336,6 +349,7 @@ class Tr:
         self.opaque_if = cfg.get("opaque_if", {})
         self.opaque_unpack = cfg.get("opaque_unpack", {})
         self.self_items = cfg.get("self_items", {})
+        self.self_append = cfg.get("self_append", [])
         self.actions = cfg.get("actions", {})
         self.bool_stream = cfg.get("bool_stream", {})
         self.not_none = cfg.get("not_none", {})
@@ -346,7 +360,7 @@ class Tr:
         self.roll_stream = bool(cfg.get("roll_stream"))
         self.locals: dict[str, str] = {}
         self.ntmp = 0
-        self.tmps: dict[str, str] = {}
+        self.tmps: dict[str, str] = {"app" + a_: "Arr" for a_ in self.self_append}
         self.keyconsts: dict[str, float] = {}
         self.used_streams: set = set()
         self.collect(fn.body)
@@ -1196,6 +1210,12 @@ class Tr:
             env = self.pre([a for a in st.value.args if not (isinstance(a, ast.Name) and a.id == "self")], L)
             L.append(f"{{ s with log := s.log ++ [({self.actions[self.self_call_name(st.value)]} : Int)] }}")
             return L
+        if isinstance(st, ast.Expr) and isinstance(st.value, ast.Call) and isinstance(st.value.func, ast.Attribute) and st.value.func.attr == "append" \
+                and self.self_path(st.value.func.value) in self.self_append and len(st.value.args) == 1:
+            fld = "app" + self.self_path(st.value.func.value)
+            env = self.pre([st.value.args[0]], L)
+            L.append(f"{{ s with {fld} := s.{fld} ++ [{self.E(st.value.args[0], env)}] }}")
+            return L
         if isinstance(st, ast.Expr) and isinstance(st.value, ast.Call):
             c = st.value
             if isinstance(c.func, ast.Attribute) and isinstance(c.func.value, ast.Name) and c.func.value.id in self.locals and self.locals[c.func.value.id] == "Arr":
@@ -1483,6 +1503,12 @@ class Tr:
                 lines.append(f"{pad}let s := {ln}")
             selfl = "[" + ", ".join(f"s.self{a}" for a in self.self_state) + "]"
             lines.append(f"{pad}if s.err || s.dry then none else some ([{self.E(last.value, env)}, {selfl}])")
+        elif isinstance(last, ast.Return) and self.self_append:
+            L = []
+            env = self.pre([last.value], L)
+            for ln in L:
+                lines.append(f"{pad}let s := {ln}")
+            lines.append(f"{pad}if s.err || s.dry then none else some ([{self.E(last.value, env)}, " + ", ".join(f"s.app{a_}" for a_ in self.self_append) + "])")
         elif isinstance(last, ast.Return) and self.cfg.get("returns_log"):
             lines.append(f"{pad}if s.err || s.dry then none else some (s.log)")
         elif isinstance(last, ast.Return) and self.cfg["ret"] == "Tree":
